@@ -23,18 +23,18 @@ func PlanFor(prop, tier string) (*Plan, error) {
 		p.Monitors = func() []Monitor { return []Monitor{NewC02()} }
 		p.Rule = "same exploration; every transition checks zero-sum, supply, deltas == emitted bank transfers, and the op's exact due (fee + reservation, settlement allocations/refunds/unsold/proceeds, instalments); non-trivial = distinct bids / modifications / settlements with a winner / instalment releases"
 	case "C03":
-		p.Scenarios = append(bookScenarios(tier), S2b(tier, 2, false), S4w("quick"), S2o(tier), S2m(tier), S11(tier))
+		p.Scenarios = append(bookScenarios(tier), S2b(tier, 2, false), S4w("quick"), S2o(tier), S2m(tier), S11(tier), S13(tier, true))
 		p.Monitors = func() []Monitor { return []Monitor{NewC03()} }
 		p.Rule = "order-book enumeration: every book of <=N real PlaceBid calls (bidder x kind x price x amount, incl. a price level that turns small worth-bids into zero coins) under several cap/supply assignments, plus every book the modification scenario reaches; for each distinct book the MatchingInfo of the real CalculateBatchAllocation and, at the settlement block, the delivered coins are compared with the definition (linear scan over all recorded prices, exact rationals); non-trivial = distinct order books (digest of bids, caps, supply)"
 	case "C04":
-		p.Scenarios = append(bookScenarios(tier), S1b(tier, "3", true), S1b(tier, "0.5", false), S2b(tier, 2, false), S2o(tier), S2m(tier), S11(tier))
+		p.Scenarios = append(bookScenarios(tier), S1b(tier, "3", true), S1b(tier, "0.5", false), S2b(tier, 2, false), S2o(tier), S2m(tier), S11(tier), S13(tier, false), S13(tier, true))
 		if !quick {
 			p.Scenarios = append(p.Scenarios, S1b(tier, "0.333333333333333333", true), S2b(tier, 0, true), S2a(tier, true))
 		}
 		p.Monitors = func() []Monitor { return []Monitor{NewC04()} }
 		p.Rule = "same enumeration; at every settlement each bidder's payment (reservation minus refund read off the bank transfers) is bounded by P*q <= paid < P*q + #matched bids and by the reservation, losers get everything back, P* never exceeds a matched bid's limit; every accepted fixed-price bid is checked against its rounding bound; non-trivial = distinct (P*, quantity, paid, matched bids, reserved) winner cases and distinct fixed bids"
 	case "C05":
-		p.Scenarios = append(bookScenarios(tier), S1b(tier, "3", true), S1b(tier, "0.5", false), S2b(tier, 0, true), S3(tier, false), S3x(tier), S3e(tier), S2o(tier), S2m(tier), S11(tier), S12(tier))
+		p.Scenarios = append(bookScenarios(tier), S1b(tier, "3", true), S1b(tier, "0.5", false), S2b(tier, 0, true), S3(tier, false), S3x(tier), S3e(tier), S2o(tier), S2m(tier), S11(tier), S12(tier), S13(tier, false), S13(tier, true))
 		if !quick {
 			p.Scenarios = append(p.Scenarios, S1a(tier, true), S2a(tier, false), S2b(tier, 2, false))
 		}
@@ -48,7 +48,7 @@ func PlanFor(prop, tier string) (*Plan, error) {
 		p.Monitors = func() []Monitor { return []Monitor{NewC06()} }
 		p.Rule = "every sequence of fixed-price bids (both denominations, allow-listed and outsider accounts, amounts that exactly exhaust / exceed the remainder or convert to zero) within the budget; each decision is compared in both directions with the reference predicate and the published remainder with offered minus accepted in every state; non-trivial = distinct (reason, bidder, denom, amount, price, remainder) decisions"
 	case "C08":
-		p.Scenarios = []*Scenario{S1a(tier, true), S2a(tier, false), S3(tier, false), S2c(tier, "0.5", 0), S12(tier)}
+		p.Scenarios = []*Scenario{S1a(tier, true), S2a(tier, false), S3(tier, false), S2c(tier, "0.5", 0), S12(tier), S14(tier)}
 		for _, sc := range p.Scenarios {
 			sc.withRejectsTerminal()
 		}
@@ -189,7 +189,7 @@ func PlanFor(prop, tier string) (*Plan, error) {
 
 // moneyScenarios is the scenario set of the balance properties (C01, C02, C04, C05).
 func moneyScenarios(tier string) []*Scenario {
-	out := []*Scenario{S1a(tier, true), S1b(tier, "0.5", false), S1b(tier, "3", true), S2a(tier, false), S2b(tier, 0, true), S2b(tier, 2, false), S2o(tier), S2m(tier), S11(tier), S12(tier)}
+	out := []*Scenario{S1a(tier, true), S1b(tier, "0.5", false), S1b(tier, "3", true), S2a(tier, false), S2b(tier, 0, true), S2b(tier, 2, false), S2o(tier), S2m(tier), S11(tier), S12(tier), S13(tier, false), S13(tier, true)}
 	if tier == "thorough" {
 		out = append(out, S1a(tier, false), S1b(tier, "0.333333333333333333", true), S2a(tier, true), S2b(tier, 1, true), S1f(tier))
 	}
